@@ -230,7 +230,7 @@ bd!(Luma<SrgbStd, u8>, u8; make |g| Luma::new(f(g));
 /// The generic contract suite B1-B6.
 pub fn suite<C: Bd, G: Gen>(g: &mut G) {
     let c = C::make(g);
-    g.cover(true);
+    cov!(g, true);
     let k = c.clamp();
     // B1
     ob!("B1.clamp_result_is_within_bounds", k.is_within_bounds());
@@ -322,7 +322,7 @@ hwb_like!(Okhwb<f64>, f64);
 ///      lemma B1 & B2 ==> B3, which needs no further proof)
 pub fn hwb_suite<C: HwbLike, G: Gen>(g: &mut G, part: u8) {
     let c = C::make(g);
-    g.cover(true);
+    cov!(g, true);
     if part == 6 {
         let spec_within = c.w() >= C::min_w() && c.w() <= C::max_w() && c.b() >= C::min_b()
             && c.b() <= C::max_b() && c.w() + c.b() <= C::one();
@@ -331,7 +331,7 @@ pub fn hwb_suite<C: HwbLike, G: Gen>(g: &mut G, part: u8) {
     }
     if part == 2 {
         g.assume(c.is_within_bounds());
-        g.cover(c.w() > C::zero() && c.b() > C::zero());
+        cov!(g, c.w() > C::zero() && c.b() > C::zero());
         let k = c.clamp();
         ob!("B2.in_bounds_unchanged", k.w() == c.w() && k.b() == c.b());
         return;
@@ -371,7 +371,7 @@ where
 {
     let c = C::make(g);
     let a: f32 = f(g);
-    g.cover(true);
+    cov!(g, true);
     let w = Alpha { color: c, alpha: a };
     let k = w.clamp();
     // `Alpha<C, f32>: IsWithinBounds` cannot be instantiated (it asks for
@@ -408,7 +408,7 @@ pub fn alpha_hwb_suite<G: Gen>(g: &mut G) {
     // *is* Hwb::clamp and that clamp_assign agrees is engine S's term-identity obligation.
     let c = <Hwb<SrgbStd, f32> as HwbLike>::make(g);
     let a: f32 = f(g);
-    g.cover(true);
+    cov!(g, true);
     let w = Alpha { color: c, alpha: a };
     let k = w.clamp();
     ob!("B1.clamp_result_is_within_bounds", k.color.is_within_bounds());
@@ -450,8 +450,8 @@ fn slice_make<G: Gen, const L: usize>(g: &mut G) -> ([Srgb<f32>; L], usize) {
 
 fn slice_suite<G: Gen, const L: usize>(g: &mut G) {
     let (mut arr, n) = slice_make::<G, L>(g);
-    g.cover(n == L);
-    g.cover(n == 0);
+    cov!(g, n == L);
+    cov!(g, n == 0);
     let orig = arr;
     let mut all = true;
     let mut i = 0;
@@ -662,7 +662,7 @@ harnesses! { REG_MISC, "C03", "c03";
       desc: "C1: from_color(t) == from_color_unclamped(t).clamp(), callee results universally quantified (contract-level types)" }
     fn blanket_from_color(g) {
         let s = Src { out: g.u32(), clamped: g.u32(), within: g.bool() };
-        g.cover(true);
+        cov!(g, true);
         let r = Tok::from_color(s);
         ob!("C1.from_color_is_unclamped_then_clamp", r.v == s.clamped);
         let r2: Tok = palette::convert::IntoColor::into_color(s);
@@ -674,8 +674,8 @@ harnesses! { REG_MISC, "C03", "c03";
       desc: "C2: Ok(v) iff within(v); v is the unclamped result in the Ok and in the Err case" }
     fn blanket_try_from_color(g) {
         let s = Src { out: g.u32(), clamped: g.u32(), within: g.bool() };
-        g.cover(s.within);
-        g.cover(!s.within);
+        cov!(g, s.within);
+        cov!(g, !s.within);
         match Tok::try_from_color(s) {
             Ok(v) => {
                 ob!("C2.ok_iff_within", s.within);
@@ -695,7 +695,7 @@ harnesses! { REG_MISC, "C03", "c03";
       desc: "C1/C2 instantiated at a real conversion: from_color == unclamped+clamp bitwise, try_from_color verdict == is_within_bounds; all finite f32 triples" }
     fn real_pair_rgb_rgb(g) {
         let c: Srgb<f32> = <Srgb<f32> as Bd>::make(g);
-        g.cover(true);
+        cov!(g, true);
         let u = Srgb::<f32>::from_color_unclamped(c);
         let k = u.clamp();
         let r = Srgb::<f32>::from_color(c);
